@@ -71,5 +71,7 @@ theorem reserved_instant : (-62135596800 : Int) * 1000000000 = zeroT := by decid
     or clause; DESIGN.md §11.6a) -/
 theorem datum_skeletons : Skeletons.DatumShape := Skeletons.datum_shape
 theorem exec_skeletons : Skeletons.ExecShape := Skeletons.exec_shape
+theorem f_vm_vm_skeletons : Skeletons.F_vm_vmShape := Skeletons.f_vm_vm_shape
+theorem f_datum_datum_skeletons : Skeletons.F_datum_datumShape := Skeletons.f_datum_datum_shape
 
 end MtailVerif.C07
